@@ -127,6 +127,31 @@ def snap_json(s):
 def apply_step(res, st):
     """returns (new_result_or_None, output)"""
     op = st["op"]
+    if op == "noise":
+        # public API calls that only READ the Result object; the object is used again by the later steps
+        w = st["what"]
+        if w == "from_result":
+            from coba.environments import Environments
+            envs = Environments.from_result(res)
+            [e.params for e in envs]
+        elif w == "copy":
+            c = res.copy()
+            c.where_fin("min", "learner_id", "environment_id")
+        elif w == "where_discard":
+            res.where(learner_id=[r[0] for r in res.learners][:1])
+            res.where(environment_id=[r[0] for r in res.environments][-1:])
+        elif w == "fin_discard":
+            res.where_fin("min", "learner_id", "environment_id")
+            res.where_fin(1, ["learner_id", "evaluator_id"], "environment_id")
+        elif w == "raw_discard":
+            try:
+                res.raw_learners(x="index", y="reward", l="learner_id", p=None)
+            except Exception:  # noqa
+                pass
+        elif w == "accessors":
+            list(res.interactions.to_dicts()); list(res.learners); str(res); res.interactions.copy()
+            list(res.interactions.groupby(3, "count")); res.interactions["index"]; res == res.copy()
+        return None, "noise"
     if st.get("as_tuple"):
         st = dict(st, **{k: tuple(st[k]) for k in ("l", "p", "x") if isinstance(st.get(k), list)})
     if op == "where_fin":
@@ -186,6 +211,8 @@ def run_case(case):
                 if new is not None:
                     rec["post"] = snap(new)
                     res = new
+                elif out == "noise":
+                    rec["after"] = snap(res)
                 else:
                     rec["table"] = (list(out.columns), [list(out[c]) for c in out.columns])
             except Exception as e:  # noqa
@@ -934,6 +961,10 @@ class C18(Property):
             steps.append(self.gen_raw(rng, case))
             if rng.chance(0.15):
                 steps.insert(0, self.gen_raw(rng, case))
+        for _ in range(rng.choice([0, 0, 1, 1, 2])):
+            # the same Result object is handed to another public function between the analysis steps
+            steps.insert(rng.below(len(steps) + 1), {"op": "noise", "what": rng.choice(
+                ["from_result", "from_result", "copy", "where_discard", "fin_discard", "raw_discard", "accessors"])})
         case["steps"] = steps
         return case
 
@@ -976,6 +1007,14 @@ class C18(Property):
                                   {"op": "raw_contrast", "l": "family", "l1": "g", "l2": "f", "x": "environment_id", "p": "environment_id", "span": None, "fresh": True},
                                   {"op": "raw_contrast", "l": "learner_id", "l1": 0, "l2": 1, "x": "data", "p": "data", "span": None, "fresh": True},
                                   {"op": "raw_contrast", "l": "learner_id", "l1": 1, "l2": 1, "x": "index", "p": "environment_id", "span": None, "fresh": True}]))
+        # the same Result object used by Environments.from_result (etc.) between analysis steps (mutant c18f-m2): ragged, 3 envs, 2 learners
+        rg = dict(base, vals=[[0]], lrns=[[1, "f"], [2, "g"]], extra=True,
+                  evals=[[0, 1, 0, [1, 2, 3]], [0, 2, 0, [4, 5]], [1, 1, 0, [6, 7]], [1, 2, 0, [8, 9, 1]], [2, 2, 0, [2]]])
+        ana = [{"op": "where_fin", "n": "min", "l": "learner_id", "p": "environment_id", "fresh": True},
+               {"op": "raw_learners", "x": "index", "l": "learner_id", "p": "environment_id", "span": None, "fresh": True},
+               {"op": "raw_learners", "x": "data", "l": "full_name", "p": None, "span": 2, "fresh": True}]
+        for w in ("from_result", "copy", "where_discard", "fin_discard", "raw_discard", "accessors"):
+            cs.append(dict(rg, steps=ana[:1] + [{"op": "noise", "what": w}] + ana))
         # column names that contain the special names (mutant c18c-m1: `'index' in x` instead of `x == 'index'`)
         cs.append(dict(base, env_cols=["fold_index"], lrn_cols=["my_learner_id"], envs=[[0, 10], [1, 20]], lrns=[[0, "A"], [1, "B"]], vals=[[0]],
                        evals=[[0, 0, 0, [1, 0]], [0, 1, 0, [0, 1]], [1, 0, 0, [1, 1, 0, 0, 0, 0]], [1, 1, 0, [0, 0, 1, 1, 1, 1]]],
@@ -1064,6 +1103,18 @@ class C18(Property):
             best_a_ok = False
             if "err" in rec:
                 tags.append("err:%s:%s" % (op, rec["err"]))
+            if op == "noise":
+                tags.append("noise:" + st["what"])
+                if "err" in rec:
+                    fails.append(F("B", "%s on the Result raised %s: %s" % (st["what"], rec["err"], rec.get("errmsg")), "noise:%s-raises-%s" % (st["what"], rec["err"])))
+                elif rec["after"] != pre:
+                    tb = [k for k in ("env", "lrn", "val", "int") if rec["after"][k] != pre[k]]
+                    fails.append(F("B", "a read-only use of the Result (%s) changed its own %s table(s): rows before %s, after %s — every later "
+                                   "where_fin / raw_learners on this object works on the altered table"
+                                   % (st["what"], tb, pre[tb[0]][1][:8], rec["after"][tb[0]][1][:8]), "noise:%s-changes-the-result" % st["what"]))
+                impl_out.append({"noise": st["what"]})
+                model_out.append(None)
+                continue
             nf_here = any(nonfinite(r[pre["int"][0].index("reward")]) for r in pre["int"][1]) if "reward" in pre["int"][0] else False
             if nf_here:
                 tags.append("rewards:non-finite")
@@ -1750,6 +1801,15 @@ class C18(Property):
                 st = dict(st, **{k: tuple(st[k]) for k in ("l", "p", "x") if isinstance(st.get(k), list)})
             if st.get("fresh"):
                 lines.append("r = base")
+            if st["op"] == "noise":
+                lines.append({"from_result": "from coba.environments import Environments; [e.params for e in Environments.from_result(r)]",
+                              "copy": "r.copy().where_fin('min','learner_id','environment_id')",
+                              "where_discard": "r.where(learner_id=[x[0] for x in r.learners][:1]); r.where(environment_id=[x[0] for x in r.environments][-1:])",
+                              "fin_discard": "r.where_fin('min','learner_id','environment_id'); r.where_fin(1,['learner_id','evaluator_id'],'environment_id')",
+                              "raw_discard": "r.raw_learners(x='index',y='reward',l='learner_id',p=None)",
+                              "accessors": "list(r.interactions.to_dicts()); str(r); r.interactions.copy(); list(r.interactions.groupby(3,'count'))"}[st["what"]])
+                lines.append("print([list(t) for t in (r.environments, r.learners, r.evaluators, r.interactions)])")
+                continue
             if st["op"] == "where_fin":
                 lines.append("r = r.where_fin(%r, %r, %r)" % (st.get("n"), st.get("l"), st.get("p")))
             elif st["op"] == "where":
